@@ -15,7 +15,7 @@ Space (everything below is enumerated completely, nothing is sampled)
              booked at a per-unit cost of exactly zero next to an ordinary lot, one of them reduced) and NESTED
              (accounts whose full name is a prefix / substring of other accounts)
   BALANCES   AT f in {absent, units, cost}  x  FROM menu  x  WHERE in {absent, account ~ 'Assets', number > 0,
-             currency = 'USD'}
+             currency = 'USD', account ~ 'Income|Expenses|Equity'}
   JOURNAL    account pattern in {absent, '', 'Assets', 'Assets:Cash|Expenses', 'NoSuchAccount' (matches nothing),
              'aSSets:ca' (case varied), '^Income|Card$' (anchors), two patterns containing a double quote}
              x AT f  x  FROM menu                 (per BJ ledger: quick 348 + 783, thorough 924 + 2 079 statements)
@@ -28,7 +28,8 @@ Space (everything below is enumerated completely, nothing is sampled)
              year = 2020 AND NOT has_account('Inv');  OPEN ON d / CLOSE [ON e] / CLEAR: quick a list of 15 subsets
              with dates before / inside (an entry date, a date between entries) / after the ledger span, thorough
              the full product d in {absent} + 5 dates x e in {absent, no date} + 5 dates x CLEAR in {absent, present}
-             with d <= e;  four combinations of an expression with clauses
+             with d <= e;  nine combinations of an expression with clauses (five of them year = 2020 with exactly
+             one of CLOSE / CLEAR, with and without OPEN)
   PRINT      FROM in: absent; type = T for each of the 12 directive types; type != 'transaction'; NOT type = 'open';
              NOT (type = 'transaction' OR type = 'price'); year = 2019, year = 2020, NOT year = 2019,
              date < 2020-01-10, date >= 2020-02-01, type = 'transaction' AND date < 2020-01-10; flag = '*', flag = '!',
@@ -407,7 +408,10 @@ def occ_menu(thorough):
 
 #: expressions combined with clauses (the clauses apply first, then the expression)
 BJ_COMBOS = [("flag = '*'", D_IN1, D_IN2, None), ("has_account('Expenses')", None, D_IN2, True),
-             ('date >= 2020-02-01', D_IN1, True, True), (f"narration ~ '{NARR_RE}'", D_IN1, None, None)]
+             ('date >= 2020-02-01', D_IN1, True, True), (f"narration ~ '{NARR_RE}'", D_IN1, None, None),
+             # an expression with exactly one of CLOSE / CLEAR (and with OPEN): combined with every WHERE condition
+             ('year = 2020', None, None, True), ('year = 2020', None, D_IN2, None), ('year = 2020', None, True, None),
+             ('year = 2020', D_IN1, None, True), ('year = 2020', D_IN1, D_IN2, None)]
 PRINT_COMBO_EXPRS = ["type = 'transaction'", "type != 'transaction'", f"narration ~ '{NARR_RE}'"]
 
 
@@ -435,6 +439,8 @@ WHERES = collections.OrderedDict([
                             lambda e, p: re.search('Assets', p.account, re.IGNORECASE) is not None)),
     ('number > 0', (lambda: A.Greater(col('number'), C(0)), lambda e, p: p.units.number > 0)),
     ("currency = 'USD'", (lambda: A.Equal(col('currency'), C('USD')), lambda e, p: p.units.currency == 'USD')),
+    ("account ~ 'Income|Expenses|Equity'", (lambda: A.Match(col('account'), C('Income|Expenses|Equity')),
+                                            lambda e, p: re.search('Income|Expenses|Equity', p.account, re.IGNORECASE) is not None)),
 ])
 
 QUOTE_CRASH = 'a"b'
